@@ -183,8 +183,8 @@ def run(tier, seed):
                sfc_models.models.Model._GenerateInitialConditions)
     T = 240 if tier == "quick" else 600
     chk.bounds = {'horizon': '0..2 (3 for scalar/tuple), symbolic, set on the solver and via MaxTime=', 'exogenous': 'list length <= 3 with symbolic float '
-                  'values in [-100,100]; float scalar (broadcast); tuple', 'initial condition': 'symbolic float on an endogenous, lagged, decorative, '
-                  'constant variable', 'reduction': 'on/off (symbolic bool)', 'per_condition_timeout_s': T}
+                  'values in [-100,100]; float scalar (broadcast); tuple', 'initial condition': 'symbolic float on a lagged / decorative variable (CrossHair); on endogenous and '
+                  'constant variables the value is enumerated and the exogenous values symbolic (E2)', 'reduction': 'on/off (symbolic bool)', 'per_condition_timeout_s': T}
     chk.bounds['E2 part'] = 'block shapes %r x T 0..2(3) x exogenous length T..T+2 x initial value x reduction on/off; exogenous VALUES symbolic reals in [-100,100]' % (sorted(E2_BLOCKS),)
     chk.assumptions = ['symbolic values enter through names injected into the solver module eval globals (G = SYM_G, x(0) = SYM_IC): code under test unmodified',
                        'blocks are loop-light (alias/affine in one variable) so that CrossHair exhausts the iteration']
